@@ -927,7 +927,7 @@ class GraphPattern:
         }
 
         def commute_node(node: NodePattern) -> Iterable[bool]:
-            if node.op_identifier() in COMMUTATIVE_OPS:
+            if node.op_identifier() in COMMUTATIVE_OPS and len(node.inputs) == 2:
                 # Try with and without swapping inputs.
                 return [False, True]
             # No swapping of inputs
